@@ -70,7 +70,108 @@ theorem refines_addVariableF {m m' : Cqm} (hwf : CqmWF m) (vt : VT4) (v : Option
     (h : m.step (.addVariable vt v lb ub) = (m', none)) : absCqm m' = (absCqm m).addVariable vt v lb ub :=
   refines_addVariableCoreF hwf vt v _ _ _ _ h
 
+/-! ### `change_vartype` and `flip_variable` as functions of the abstract state -/
+
+/-- `change_vartype(vartype, v)` on the list of polynomials, as coded (C++ `change_vartype`): same type — nothing; SPIN→BINARY
+    `s = 2x − 1`; BINARY→SPIN `x = (s + 1)/2`; SPIN→INTEGER `s = 2x − 1` with bounds [0, 1]; BINARY→INTEGER only the type
+    (bounds kept); anything else raises (`none`) -/
+def LCqm.changeVartype (s : LCqm) (vt : VT4) (v : Label) : Option LCqm :=
+  match s.info v with
+  | none => none
+  | some (src, lb, ub) =>
+    if src = vt then some s
+    else if src = .spin && vt = .binary then some ((s.mapPolys (·.substitute v 2 (-1))).setInfo v (.binary, 0, 1))
+    else if src = .binary && vt = .spin then some ((s.mapPolys (·.substitute v (1/2) (1/2))).setInfo v (.spin, -1, 1))
+    else if src = .spin && vt = .integer then some ((s.mapPolys (·.substitute v 2 (-1))).setInfo v (.integer, 0, 1))
+    else if src = .binary && vt = .integer then some (s.setInfo v (.integer, lb, ub))
+    else none
+
+theorem abs_subst_setInfo {m : Cqm} (h : RefInv m) {g : Nat} {v : Label} (hgl : m.labels[g]? = some v) (hglt : g < m.vt.length)
+    (a c : Rat) (t : VT4) (lo hi : Rat) :
+    absCqm { m.mapExprs (·.substitute g a c) with vt := setAt m.vt g t, lb := setAt m.lb g lo, ub := setAt m.ub g hi }
+      = ((absCqm m).mapPolys (·.substitute v a c)).setInfo v (t, lo, hi) := by
+  have hms := absCqm_mapSubstitute h.lab h.ks h.sorted hgl a c
+  refine lcqm_ext' rfl ?_ ?_ ?_
+  · exact absCqm_setInfo h.wf h.lab hgl _ _ _ t lo hi
+      (fun k => getD_setAt _ _ _ _ _ hglt)
+      (fun k => getD_setAt _ _ _ _ _ (by rw [h.wf.lb_len]; exact hglt))
+      (fun k => getD_setAt _ _ _ _ _ (by rw [h.wf.ub_len]; exact hglt)) _ rfl
+  · have := congrArg LCqm.obj hms; exact this
+  · have := congrArg LCqm.cons hms; exact this
+
+theorem abs_info_of_idx {m : Cqm} {g : Nat} {v : Label} (hg : m.idx? v = some g) :
+    (absCqm m).info v = some (m.vt.getD g .binary, m.lb.getD g 0, m.ub.getD g 0) := by
+  show (findIdx v m.labels 0).map _ = _
+  have : findIdx v m.labels 0 = some g := hg
+  rw [this]; rfl
+
+theorem refines_changeVartypeF {m m' : Cqm} (h : RefInv m) (vt : VT4) (v : Label)
+    (hstep : m.step (.changeVartype vt v) = (m', none)) : (absCqm m).changeVartype vt v = some (absCqm m') := by
+  have h' : m.changeVartypeR vt v = (m', none) := hstep
+  unfold Cqm.changeVartypeR at h'
+  cases hg : m.idx? v with
+  | none => rw [hg] at h'; cases (Prod.mk.inj h').2
+  | some g =>
+    rw [hg] at h'
+    simp only [] at h'
+    have hgl := idx?_get hg
+    have hglt : g < m.vt.length := idx?_lt h.wf hg
+    have hsrc : m.vt.getD g .integer = m.vt.getD g .binary := by
+      simp [List.getD_eq_getElem?_getD, List.getElem?_eq_getElem hglt]
+    cases hr : m.changeVartypeAt vt g with
+    | mk m1 ok =>
+      rw [hr] at h'
+      cases ok with
+      | false => simp only [] at h'; cases (Prod.mk.inj h').2
+      | true =>
+        simp only [] at h'
+        have hm : m1 = m' := (Prod.mk.inj h').1
+        subst hm
+        unfold Cqm.changeVartypeAt at hr
+        simp only [] at hr
+        rw [hsrc] at hr
+        unfold LCqm.changeVartype
+        rw [abs_info_of_idx hg]
+        simp only []
+        split_ifs at hr ⊢
+        · rw [← (Prod.mk.inj hr).1]
+        · rw [← (Prod.mk.inj hr).1, abs_subst_setInfo h hgl hglt]
+        · rw [← (Prod.mk.inj hr).1, abs_subst_setInfo h hgl hglt]
+        · rw [← (Prod.mk.inj hr).1, abs_subst_setInfo h hgl hglt]
+        · rw [← (Prod.mk.inj hr).1]
+          congr 1
+          refine lcqm_ext' rfl ?_ rfl rfl
+          exact (absCqm_setInfo h.wf h.lab hgl (setAt m.vt g .integer) m.lb m.ub .integer (m.lb.getD g 0) (m.ub.getD g 0)
+            (fun k => getD_setAt _ _ _ _ _ hglt)
+            (fun k => by by_cases hk : k = g <;> simp [hk])
+            (fun k => by by_cases hk : k = g <;> simp [hk]) m rfl).symm
+        · cases (Prod.mk.inj hr).2
+
+/-- `flip_variable(v)` of a SPIN variable on the list of polynomials: `s ↦ −s` in every expression (the BINARY branch also
+    clears the mark of the discrete constraints containing `v`, decided by the index-level `is_discrete`: not a function of
+    the label-keyed polynomials, `none` here) -/
+def LCqm.flipSpin (s : LCqm) (v : Label) : Option LCqm :=
+  if s.vtOf v = .spin then some (s.mapPolys (·.substitute v (-1) 0)) else none
+
+theorem refines_flipSpin {m m' : Cqm} (h : RefInv m) (v : Label) (s' : LCqm) (hs : (absCqm m).flipSpin v = some s')
+    (hstep : m.step (.flipVariable v) = (m', none)) : absCqm m' = s' := by
+  unfold LCqm.flipSpin at hs
+  split_ifs at hs with hsp
+  injection hs with hs
+  rw [← hs]
+  obtain ⟨g, hg, hcase⟩ := refines_flipVariable h.lab h.ks h.sorted v hstep
+  have hglt : g < m.vt.length := idx?_lt h.wf hg
+  have hsrc : m.vt.getD g .integer = m.vt.getD g .binary := by
+    simp [List.getD_eq_getElem?_getD, List.getElem?_eq_getElem hglt]
+  have hvt : (absCqm m).vtOf v = m.vt.getD g .binary := by
+    unfold LCqm.vtOf; rw [abs_info_of_idx hg]
+  rcases hcase with ⟨_, habs⟩ | ⟨hb, _⟩
+  · exact habs
+  · rw [hsrc, ← hvt, hsp] at hb; cases hb
+
 def specStepAll (s : LCqm) : Op → Option LCqm
+  | .changeVartype vt v => s.changeVartype vt v
+  | .flipVariable v => s.flipSpin v
   | .addVariable vt v lb ub => some (s.addVariable vt v lb ub)
   | .addConstraintTerms ts sense rhs label weight pen =>
     some { s with cons := s.cons ++
@@ -162,8 +263,12 @@ theorem specStepAll_refines {m : Cqm} (h : RefInv m) (op : Op) (hop : OpOK2 op) 
   | setObjectiveTerms ts => exact specStep_refines h _ s' hs hok
   | fixVariable v a => exact specStep_refines h _ s' hs hok
   | fixVariables fixed => exact specStep_refines h _ s' hs hok
-  | flipVariable v => exact specStep_refines h _ s' hs hok
-  | changeVartype vt v => exact specStep_refines h _ s' hs hok
+  | flipVariable v => exact refines_flipSpin h v s' hs hm
+  | changeVartype vt v =>
+    have := refines_changeVartypeF h vt v hm
+    have hs2 : (absCqm m).changeVartype vt v = some s' := hs
+    rw [this] at hs2
+    exact Option.some.inj hs2
   | removeConstraint label cascade => exact specStep_refines h _ s' hs hok
   | relabelVariables mp => exact specStep_refines h _ s' hs hok
   | viewAddLinear w v b => exact specStep_refines h _ s' hs hok
@@ -197,7 +302,7 @@ theorem specRunAll_refines (ops : List Op) : ∀ {m : Cqm}, RefInv m → (∀ op
 
 /-- the operations the extended fold covers -/
 def inFold : Op → Bool
-  | .flipVariable .. | .changeVartype .. | .relabelVariables .. => false
+  | .relabelVariables .. => false
   | _ => true
 
 end CqmP
